@@ -2,9 +2,9 @@
 (* Exhaustive exploration of the alignment-object life cycle on one small instance:
    2 annotators with 2 and 1 units, two dissimilarities with different tables and delta_empty,
    2 unitary alignments (any tuples, not only partitions), object 1 detached, object 2 attached. *)
-EXTENDS AlignObj
+EXTENDS AlignObj, Json
 
-CONSTANTS Variant, Computed
+CONSTANTS Variant, Computed, Emit
 
 E == << >>
 Tab1 == << <<E, << <<1>>, <<3>> >> >>, <<E, E>> >>
@@ -15,12 +15,16 @@ SetVals == {5}
 
 Init == \E t1 \in Tps, t2 \in Tps, g \in {NoVal, <<7, 2>>} : InitObj(J0, <<t1, t2>>, Computed, g)
 
-DoCompute == \E o \in Objs, d \in 1..2 : Compute(J0, o, d, Variant)
-DoReadTot == \E o \in Objs : ReadTot(J0, o)
-DoReadUd == \E k \in 1..2 : ReadUd(J0, k)
-DoSetUd == \E k \in 1..2, v \in SetVals : SetUd(J0, k, v)
-DoSetTuple == \E k \in 1..2, t \in Tps : SetTuple(J0, k, t, Variant)
-DoUCompute == \E k \in 1..2, d \in 1..2 : UCompute(J0, k, d)
+\* spec -> code: every transition taken is printed (source state, operation, destination state and expected reply)
+EmitEdge(op, args) == Emit => PrintT(ToJson([op |-> op, args |-> args,
+                                             src |-> [tuples |-> tuples, ud |-> ud, tot |-> tot],
+                                             dst |-> [tuples |-> tuples', ud |-> ud', tot |-> tot', ret |-> ret', out |-> out']]))
+DoCompute == \E o \in Objs, d \in 1..2 : Compute(J0, o, d, Variant) /\ EmitEdge("compute", <<o, d>>)
+DoReadTot == \E o \in Objs : ReadTot(J0, o) /\ EmitEdge("readtot", <<o>>)
+DoReadUd == \E k \in 1..2 : ReadUd(J0, k) /\ EmitEdge("readud", <<k>>)
+DoSetUd == \E k \in 1..2, v \in SetVals : SetUd(J0, k, v) /\ EmitEdge("setud", <<k, v>>)
+DoSetTuple == \E k \in 1..2, t \in Tps : SetTuple(J0, k, t, Variant) /\ EmitEdge("settuple", <<k, t[1], t[2]>>)
+DoUCompute == \E k \in 1..2, d \in 1..2 : UCompute(J0, k, d) /\ EmitEdge("ucompute", <<k, d>>)
 Next == DoCompute \/ DoReadTot \/ DoReadUd \/ DoSetUd \/ DoSetTuple \/ DoUCompute
 Spec == Init /\ [][Next]_aovars
 
